@@ -37,6 +37,12 @@ CHECKS = {
         "quick": {"runs": 3000, "wall": 80},
         "thorough": {"runs": 100000, "wall": 1800},
     },
+    "C19": {
+        "level": "fault_enumeration",
+        "legs": [("reject", "C19")],
+        "quick": {"runs": 440, "wall": 70},
+        "thorough": {"runs": 20000, "wall": 1800},
+    },
 }
 
 
@@ -46,6 +52,19 @@ def leg_of(check, i):
 
 
 EVIDENCE_TEXT = {
+    "C19": {
+        "rule": "hosts: fits (xy/indexed/histogram/unbinned), data containers (indexed/xy), histogram containers, graphs. A valid base history (mutators + reads) is "
+                "generated; in the enumerated regime (every second run, base length <= 8) EVERY applicable catalogue kind R1-R10 is inserted at EVERY position, one "
+                "fault per derived history (kinds x positions exhaustive per base history, counted as derived_histories); in the sampled regime longer histories "
+                "get 1-3 faults at seeded positions. Each malformed call must raise; a lock-step twin executes the same history without the faults and every "
+                "subsequent read must agree (rtol 1e-12; tolerance tier after a final do_fit); histogram containers and graphs must still accept a valid edit "
+                "afterwards. Constructor-time kinds (R7 reserved argument, R8 Poisson data, R9 unsorted edges) are checked for 'raises'. evaluations = base histories; "
+                "distinct = distinct event-log digests.",
+        "states_measure": "distinct (host, catalogue kind, call, position, history length) tuples exercised",
+        "assumptions": ["base histories are sampled, the (kind x position) insertion per base history is exhaustive in the enumerated regime",
+                        "reads of uncertainty-dependent observables are skipped while the twin's configuration is outside the PD domain",
+                        "unnamed sources are not addressed by disable/enable in the container host (their generated names differ between the two objects)"],
+    },
     "C03": {
         "rule": "each run = one real fit (xy / indexed / histogram / unbinned stratified; iminuit and scipy; nonlinear and iterative dynamic errors) "
                 "executing a seeded history of public mutators (sources via fit or fit.data_container, disable/enable, constraints, set/fix/release/limit, "
